@@ -426,16 +426,33 @@ fn roundtrip(n: &Norm, probe: Option<(&'static str, usize, usize)>) -> Outcome {
     }
 }
 
+static ST: [AtomicU64; 6] = [AtomicU64::new(0), AtomicU64::new(0), AtomicU64::new(0), AtomicU64::new(0), AtomicU64::new(0), AtomicU64::new(0)];
+extern "C" fn dump_stats() {
+    let v: Vec<u64> = ST.iter().map(|a| a.load(Ordering::Relaxed)).collect();
+    eprintln!("STATS roundtrips={} probes={} build_ms={} save_ms={} load_ms={} attributions={}", v[0], v[1], v[2] / 1_000_000, v[3] / 1_000_000, v[4] / 1_000_000, v[5]);
+}
+
 fn roundtrip_inner(n: &Norm, probe: Option<(&'static str, usize, usize)>) -> Outcome {
+    ST[0].fetch_add(1, Ordering::Relaxed);
+    if probe.is_some() {
+        ST[1].fetch_add(1, Ordering::Relaxed);
+    }
+    let t0 = std::time::Instant::now();
     let orig = build(n);
+    let t1 = std::time::Instant::now();
     let bytes = match orig.to_bytes("ans", &n.opts.save_options()) {
         Ok(b) => b,
         Err(e) => return Outcome::SaveError(e.to_string()),
     };
+    let t2 = std::time::Instant::now();
     let loaded = match Buffer::from_bytes(Path::new("x.ans"), true, &bytes) {
         Ok(b) => b,
         Err(e) => return Outcome::LoadError(e.to_string()),
     };
+    let t3 = std::time::Instant::now();
+    ST[2].fetch_add((t1 - t0).as_nanos() as u64, Ordering::Relaxed);
+    ST[3].fetch_add((t2 - t1).as_nanos() as u64, Ordering::Relaxed);
+    ST[4].fetch_add((t3 - t2).as_nanos() as u64, Ordering::Relaxed);
     let h = n.grid.len();
     let mut tmp = Vec::new();
     if let Some((clause, x, y)) = probe {
@@ -857,6 +874,7 @@ impl Attr {
 /// step applies); a step is kept when the same clause is still violated at the same cell. The key names the clause and
 /// the options / features whose removal from the final reduced case makes it pass.
 fn attribute(n0: &Norm, first: &Mis) -> (String, String) {
+    ST[5].fetch_add(1, Ordering::Relaxed);
     let mut a = Attr {
         n: n0.clone(),
         p: Probe { clause: first.clause, x: first.x, y: first.y },
@@ -1244,6 +1262,9 @@ fn minimize(c: &Case) -> Vec<Case> {
 }
 
 fn main() {
+    if std::env::var("ICYV_C04_STATS").is_ok() {
+        unsafe { libc::atexit(dump_stats) };
+    }
     let mut eng = Engine::new("C04");
     eng.rule(
         "buffers: single-layer buffers, width 80 (1..=132 when save_sauce), height 1..=60, rows = run-structured cell lists (runs of 1..=width equal cells, cut at the right margin, \
